@@ -90,11 +90,18 @@ def r15_2(ctx):
     bw = [(n, c) for (n, c) in q.calls(nv, 'heap.BufferWrapper')]
     ok = bool(sz) and ast.unparse(sz[0][1].args[0]) == T and bool(bw) and \
         ast.unparse(bw[0][1].args[0]) == ast.unparse(sz[0][0].ast.targets[0])
+    if not sz and bw and bw[0][1].args:
+        # the size written where it is used: heap.BufferWrapper(ctypes.sizeof(type_))
+        a0 = bw[0][1].args[0]
+        ok = isinstance(a0, ast.Call) and nv.callee(a0) == 'ctypes.sizeof' and ast.unparse(a0.args[0]) == T
     ctx.ob('R15.2', '_new_value:fresh-wrapper-of-sizeof(type)', ok, nv, bw[0][1] if bw else None,
            'wrapper = heap.BufferWrapper(ctypes.sizeof(type_))')
     rb = [(n, c) for (n, c) in q.calls(nv, 'rebuild_ctype')]
     wv = ast.unparse(bw[0][0].ast.targets[0]) if bw and isinstance(bw[0][0].ast, ast.Assign) else '?'
     ok = bool(rb) and [ast.unparse(a) for a in rb[0][1].args] == [T, wv, 'None']
+    if bool(rb) and bw and not isinstance(bw[0][0].ast, ast.Assign) and len(rb[0][1].args) == 3:
+        # the wrapper written where it is used
+        ok = rb[0][1].args[1] is bw[0][1] and ast.unparse(rb[0][1].args[0]) == T and ast.unparse(rb[0][1].args[2]) == 'None'
     ctx.ob('R15.2', '_new_value:object-built-over-that-wrapper', ok, nv, rb[0][1] if rb else None, 'rebuild_ctype(type_, wrapper, None)')
     rc = m.func('sharedctypes:rebuild_ctype')
     P = rc.positional_params()
